@@ -424,6 +424,11 @@ class MapSet(Unit):
                     note='an unknown map id creates a default 128x128 map first')
         else:
             E.check('mapset.reuses', cur is existing)
+            probe = MapPacket.Map(2)
+            shared = sorted(k for k, v in _state_of(cur).items() if isinstance(v, (list, bytearray, dict, set))
+                            and any(v is w for w in _state_of(probe).values()))
+            E.check('mapset.fresh-map-owns-its-state', not shared, note='a map created for an unknown id shares no mutable state '
+                    'with any other map (shared: %s); otherwise a packet for one id changes the state recorded for another' % shared)
         E.check('mapset.applies-once', calls == [cur])
         E.check('mapset.frame', m.e[1] is oth and m.other_writes == 0)
         return None
@@ -435,7 +440,68 @@ class MapSet(Unit):
         p.is_tracking_position, p.is_locked = True, False
         k, v = native_call(p.apply_to_map_set, ms)
         bad = k != 'ok' or list(ms.maps_by_id) != [3] or ms.maps_by_id[3].id != 3
+        if not bad:
+            return replay_map_history()
         return dict(confirmed=bad, call='apply_to_map_set on an empty MapSet', observed='%s %r' % (k, ms.maps_by_id))
+
+    def bounded(self, rng, tier):
+        rp = replay_map_history(rng, rounds=40 if tier == 'quick' else 200)
+        return dict(name='C20.map.histories', evaluations=rp['n'], bound='seeded histories of up to 40 map packets over a pool of 3 map '
+                    'ids (icons, scale, flags, small patches), MapSet state compared with an in-order reference replay after every packet',
+                    failures=[dict(call=rp['call'], observed=rp['observed'], witness='map-history')] if rp['confirmed'] else [])
+
+
+def _state_of(obj):
+    out = dict(getattr(obj, '__dict__', {}))
+    for c in type(obj).__mro__:
+        for k in getattr(c, '__slots__', ()):
+            if hasattr(obj, k):
+                out[k] = getattr(obj, k)
+    return out
+
+
+def replay_map_history(rng=None, rounds=40):
+    """Histories over a small pool of map ids against a reference that replays them in order (each id owns its own record)."""
+    import random
+    rng = rng or random.Random(11)
+    n = 0
+    for _ in range(rounds):
+        ms = MapPacket.MapSet()
+        ref = {}
+        hist = []
+        for step in range(rng.randrange(1, 41)):
+            n += 1
+            p = MapPacket()
+            p.map_id, p.scale = rng.choice((1, 2, 7)), rng.randrange(0, 5)
+            p.icons = [MapPacket.MapIcon(rng.randrange(0, 10), rng.randrange(0, 16), (rng.randrange(-128, 128), rng.randrange(-128, 128)))
+                       for _i in range(rng.randrange(0, 3))]
+            p.is_tracking_position, p.is_locked = rng.random() < 0.5, rng.random() < 0.5
+            if rng.random() < 0.5:
+                w, h = rng.randrange(1, 5), rng.randrange(1, 5)
+                p.width, p.height, p.offset = w, h, (rng.randrange(0, 128 - w), rng.randrange(0, 128 - h))
+                p.pixels = bytearray(rng.getrandbits(8) for _i in range(w * h))
+            else:
+                p.width, p.height, p.offset, p.pixels = 0, 0, None, None
+            hist.append('id %d, %d icons, %s' % (p.map_id, len(p.icons), 'patch %dx%d' % (p.width, p.height) if p.pixels else 'no pixels'))
+            r = ref.setdefault(p.map_id, dict(px=bytearray(128 * 128)))
+            r.update(scale=p.scale, icons=list(p.icons), tracking=p.is_tracking_position, locked=p.is_locked)
+            if p.pixels is not None:
+                for i, b in enumerate(p.pixels):
+                    r['px'][(p.offset[0] + i % p.width) + 128 * (p.offset[1] + i // p.width)] = b
+            k, v = native_call(p.apply_to_map_set, ms)
+            got = None
+            if k == 'ok':
+                try:
+                    got = {i: dict(px=bytearray(m.pixels), scale=m.scale, icons=list(m.icons), tracking=m.is_tracking_position,
+                                   locked=m.is_locked) for i, m in ms.maps_by_id.items()}
+                except Exception as e:      # noqa
+                    k = 'state unreadable: %r' % (e,)
+            if k != 'ok' or got != ref:
+                wrong = sorted(i for i in ref if got is None or got.get(i) != ref[i])
+                what = [f for i in wrong[:1] for f in ref[i] if got is None or i not in got or got[i][f] != ref[i][f]]
+                return dict(confirmed=True, n=n, call='map packets in order: ' + '; '.join(hist[-4:]) + ' (last of %d)' % len(hist),
+                            observed='%s; the record of map id %s differs from an in-order replay in %s' % (k, wrong, what))
+    return dict(confirmed=False, n=n, call='map histories', observed='conform')
 
 
 def units(tier):
